@@ -81,6 +81,17 @@ class FnScan(ast.NodeVisitor):
             if isinstance(n, ast.Assign) and len(n.targets) == 1 and isinstance(n.targets[0], ast.Subscript) and isinstance(n.targets[0].value, ast.Name) \
                     and (isinstance(n.value, (ast.Set, ast.SetComp)) or (isinstance(n.value, ast.Call) and isinstance(n.value.func, ast.Name) and n.value.func.id in SET_CALLS)):
                 self.dictsetvars.add(n.targets[0].value.id)
+        self.setordered = set()
+        for n in walk_local(fn):
+            if isinstance(n, ast.Assign) and len(n.targets) == 1 and isinstance(n.value, ast.Call):
+                f = n.value.func
+                name = f.attr if isinstance(f, ast.Attribute) else f.id if isinstance(f, ast.Name) else None
+                if name in SET_ORDERED_DICT_RETURNS:
+                    pos, tgt = SET_ORDERED_DICT_RETURNS[name], n.targets[0]
+                    if pos is None and isinstance(tgt, ast.Name):
+                        self.setordered.add(tgt.id)
+                    if pos is not None and isinstance(tgt, ast.Tuple) and pos < len(tgt.elts) and isinstance(tgt.elts[pos], ast.Name):
+                        self.setordered.add(tgt.elts[pos].id)
         for n in walk_local(fn):
             # for k, v in d.items() / for v in d.values(): v is one of the sets
             gens = [(n.target, n.iter)] if isinstance(n, ast.For) else [(g.target, g.iter) for g in getattr(n, "generators", [])] if isinstance(n, (ast.ListComp, ast.SetComp, ast.GeneratorExp, ast.DictComp)) else []
@@ -102,6 +113,11 @@ class FnScan(ast.NodeVisitor):
 
     def is_set(self, e):
         if isinstance(e, (ast.Set, ast.SetComp)):
+            return True
+        # a dict whose keys were inserted in a set's order, and its views
+        if isinstance(e, ast.Name) and e.id in getattr(self, "setordered", ()):
+            return True
+        if isinstance(e, ast.Call) and isinstance(e.func, ast.Attribute) and e.func.attr in ("values", "items", "keys") and isinstance(e.func.value, ast.Name) and e.func.value.id in getattr(self, "setordered", ()):
             return True
         # an element of a dict of sets
         if isinstance(e, ast.Subscript) and isinstance(e.value, ast.Name) and e.value.id in self.dictsetvars:
@@ -246,11 +262,37 @@ def discover_set_returning(mod):
     return found
 
 
+SET_ORDERED_DICT_RETURNS = {}      # function name -> position in the returned tuple (None: the dict itself) of a dict whose KEYS were inserted in a set's order
+
+
+def discover_set_ordered_dict_returning(mod):
+    """functions that build a dict by iterating a set-typed value ({k: ... for k in <set>}, or d[k] = ... in a loop over a set) and return it: the dict's own
+    iteration order is the set's.  Their call sites bind set-ordered dicts."""
+    out = {}
+    for fn in [n for n in ast.walk(mod) if isinstance(n, ast.FunctionDef)]:
+        sc = FnScan(fn, "")
+        ordered = set()
+        for n in walk_local(fn):
+            if isinstance(n, ast.Assign) and len(n.targets) == 1 and isinstance(n.targets[0], ast.Name) and isinstance(n.value, ast.DictComp) \
+                    and any(sc.is_set(g.iter) for g in n.value.generators):
+                ordered.add(n.targets[0].id)
+        for n in walk_local(fn):
+            if isinstance(n, ast.Return) and n.value is not None:
+                if isinstance(n.value, ast.Name) and n.value.id in ordered:
+                    out[fn.name] = None
+                if isinstance(n.value, ast.Tuple):
+                    for k, el in enumerate(n.value.elts):
+                        if isinstance(el, ast.Name) and el.id in ordered:
+                            out[fn.name] = k
+    return out
+
+
 def sites(repo):
     out = []
     for f in FILES:
         mod = ast.parse(open(os.path.join(repo, f)).read())
         SET_RETURNING_FUNCS.update(discover_set_returning(mod))
+        SET_ORDERED_DICT_RETURNS.update(discover_set_ordered_dict_returning(mod))
         for n in ast.walk(mod):
             if isinstance(n, ast.FunctionDef):
                 # nested functions are scanned as part of their parent (they share its set-typed names)
